@@ -5,7 +5,9 @@ Decided here:
           eval_eu / eval_ef) computes the operator's fixed-point characterisation:
             EX p = pre(p) | (p & steady),  AX = not EX not,  EG p = gfp X. p & EX X,  AF = not EG not,
             E[p U q] = lfp X. q | (p & EX X)  (or its saturation form  X | (p & var_pre_v(X)) swept over all v),
-            EF p = E[true U p],  AG = not EF not,  A[p U q] = lfp X. q | (p & AX X);
+            EF p = E[true U p],  AG = not EF not,  A[p U q] = lfp X. q | (p & AX X),
+            and the weak untils through their duals:  E[p W q] = not A[not q U (not p & not q)],  A[p W q] = not E[not q U (not p & not q)]
+            (shared with C13-R1);
           compared modulo Boolean algebra; an inflationary step F is normalised to F | init, a deflationary to F & init;
   C11-R2  monotonicity: in the normalised equation every argument occurs with the polarity of the operator
           (follows from R1 because the right-hand sides are monotone; checked independently by polarity inference);
@@ -21,7 +23,7 @@ import terms
 LEVEL = "other"
 
 TEMPORAL = [("UnaryOp", "EX"), ("UnaryOp", "AX"), ("UnaryOp", "EF"), ("UnaryOp", "AF"), ("UnaryOp", "EG"), ("UnaryOp", "AG"),
-            ("BinaryOp", "EU"), ("BinaryOp", "AU")]
+            ("BinaryOp", "EU"), ("BinaryOp", "AU"), ("BinaryOp", "EW"), ("BinaryOp", "AW")]
 EXPECTED_POLARITY = {"Not": "-", "EX": "+", "AX": "+", "EF": "+", "AF": "+", "EG": "+", "AG": "+",
                      "EU": "+", "AU": "+", "EW": "+", "AW": "+", "Imp": None, "Iff": "±", "Xor": "±"}
 
@@ -49,7 +51,7 @@ def run(prog, rep):
         f = prog.lib_fn(E.OPS + name)
         if f is not None and not any(f in v for v in callees.values()):
             sem.check_evaluator(rep, "C11-R1", prog, kind, op, f, eng)
-    rep.floor("C11-R1", 8)
+    rep.floor("C11-R1", 10)
     # polarity
     for (kind, op), fns in sorted(callees.items()):
         if kind not in ("UnaryOp", "BinaryOp") or op not in EXPECTED_POLARITY:
